@@ -16,7 +16,7 @@ use crate::rig::{catch, normalize_panic};
 use kira::info::MockInfoBuilder;
 use kira::sound::static_sound::StaticSoundData;
 use kira::sound::streaming::StreamingSoundData;
-use kira::sound::{FromFileError, PlaybackPosition, SoundData};
+use kira::sound::{FromFileError, PlaybackPosition, PlaybackState, SoundData};
 use kira::{Frame, Tween};
 use std::io::Cursor;
 use std::sync::Arc;
@@ -953,6 +953,144 @@ fn slice_case(fmt: Fmt, ch: u16, ctx: &mut Ctx) {
 	}
 }
 
+/// the end of the file while the audio thread runs inside a decoder iteration: a short file is streamed, the decoder is parked at every
+/// one of its sync points in turn (between decoding a frame, publishing it and announcing the end) while callbacks run, and whatever the
+/// schedule the frames heard are the frames of the loaded file, in order, up to and including the last one (a wait for the decoder is a
+/// gap of silence that may cost the one frame that arrives first after the ring ran dry - C10's allowance - and nothing else)
+fn file_end_case(fmt: Fmt, ch: u16, ctx: &mut Ctx) {
+	use kira::sound::Sound;
+	pacer::set_mode(pacer::Mode::Pacer);
+	let (rate, ibs) = (8000u32, 2usize);
+	let info = MockInfoBuilder::new().build();
+	let dt = 1.0 / rate as f64;
+	for n in [6usize, 7] {
+		let spec = Spec { fmt, ch, n, rate, layout: Layout::Plain };
+		let (file, _, vals) = encode(&spec);
+		let bytes: Arc<[u8]> = file.into();
+		let reference = to_frames(&vals, ch as usize);
+		if reference.iter().any(|f| *f == Frame::ZERO) || (0..n).any(|i| (0..i).any(|j| same_frame(reference[i], reference[j]))) {
+			ctx.fail("MACHINERY: the generated file has silent or repeated frames :: end of file", spec.desc());
+			return;
+		}
+		for pre in 3..=n as u64 {
+			for (drained, parked_cbs) in [(true, 1usize), (false, 1), (false, 3)] {
+				let mut nth = 0u64;
+				loop {
+					nth += 1;
+					ctx.evals += 1;
+					ctx.count("runs: end-of-file schedules", 1);
+					let data = match StreamingSoundData::from_cursor(Cursor::new(bytes.clone())) {
+						Ok(d) => d,
+						Err(e) => {
+							ctx.fail(format!("stream: valid wav file refused: {} :: end of file", err_name(&e)), spec.desc());
+							return;
+						}
+					};
+					let dec = pacer::count();
+					let Ok((mut sound, mut handle)) = data.into_sound() else {
+						ctx.fail("stream: valid wav file refused at into_sound :: end of file", spec.desc());
+						return;
+					};
+					let mut heard: Vec<Frame> = vec![];
+					let mut states: Vec<PlaybackState> = vec![];
+					let mut hung = false;
+					let mut cb = |sound: &mut Box<dyn Sound>, handle: &kira::sound::streaming::StreamingSoundHandle<FromFileError>, heard: &mut Vec<Frame>, states: &mut Vec<PlaybackState>| {
+						let mut out = vec![Frame::new(POISON, POISON); ibs];
+						sound.on_start_processing();
+						sound.process(&mut out, dt, &info);
+						heard.extend(out);
+						states.push(handle.state());
+					};
+					paced_step(dec, pre as usize, &mut hung);
+					let ncb = if drained { pre as usize / ibs + 2 } else { 1 };
+					for _ in 0..ncb {
+						cb(&mut sound, &handle, &mut heard, &mut states);
+					}
+					pacer::arm_decoder_park(dec, nth);
+					paced_step(dec, 3, &mut hung);
+					for _ in 0..parked_cbs {
+						cb(&mut sound, &handle, &mut heard, &mut states);
+					}
+					let (site, _) = pacer::release_decoder_park(dec);
+					let fired = site.is_some();
+					for _ in 0..6 {
+						paced_step(dec, 4, &mut hung);
+						cb(&mut sound, &handle, &mut heard, &mut states);
+					}
+					let detail = format!("{} streamed with callbacks of {} frames; the decoder delivers {} frames, {}; then it is parked at its pass #{} through a stream.* sync point ({}) while {} callback(s) run; then it keeps ahead", spec.desc(), ibs, pre, if drained { "the ring is played dry" } else { "one callback" }, nth, site.unwrap_or("-"), parked_cbs);
+					let mut bad: Option<(String, String)> = None;
+					if hung {
+						bad = Some(("the decoder thread hangs".into(), String::new()));
+					}
+					let mut errs = vec![];
+					while let Some(e) = handle.pop_error() {
+						errs.push(err_name(&e));
+					}
+					if bad.is_none() && !errs.is_empty() {
+						bad = Some(("a decode error is reported for a valid file".into(), format!("{:?}", errs)));
+					}
+					if bad.is_none() && fired {
+						let mut last: Option<usize> = None;
+						let mut gap = false;
+						for (j, f) in heard.iter().enumerate() {
+							if *f == Frame::ZERO {
+								gap = true;
+								continue;
+							}
+							match reference.iter().position(|r| same_frame(*r, *f)) {
+								None => {
+									bad = Some(("a frame that is not in the file is heard".into(), format!("output frame {} = ({},{})", j, f.left, f.right)));
+									break;
+								}
+								Some(i) => {
+									if let Some(l) = last {
+										if !(i == l + 1 || (gap && i == l + 2)) {
+											let kind = if i <= l { "frames are repeated or reordered".to_string() } else { format!("{} file frames are lost in one gap", i - l - 1) };
+											bad = Some((kind, format!("output frame {}: file frame {} after file frame {}", j, i, l)));
+											break;
+										}
+									}
+									last = Some(i);
+									gap = false;
+								}
+							}
+						}
+						if bad.is_none() && last != Some(n - 1) {
+							let j_last = heard.iter().rposition(|f| *f != Frame::ZERO).unwrap_or(0);
+							let waited = states.iter().enumerate().any(|(c, st)| *st != PlaybackState::Stopped && (c * ibs..(c + 1) * ibs).any(|j| j > j_last && heard.get(j) == Some(&Frame::ZERO)));
+							if last.map(|l| l + 2 < n).unwrap_or(true) || !waited {
+								bad = Some(("the last frame of the file is never heard".into(), format!("last file frame heard {:?} of {}, and the sound never waited for the decoder after that; states {:?}", last, n, states)));
+							}
+						}
+						if bad.is_none() && handle.state() != PlaybackState::Stopped {
+							bad = Some(("the sound is not Stopped long after the last frame of the file".into(), format!("state {:?}", handle.state())));
+						}
+					}
+					if let Some((kind, b)) = bad {
+						ctx.fail(
+							format!("stream: streaming does not yield the frames of the loaded file up to its end: {} :: a callback inside a decoder iteration near the end of the file", kind),
+							format!("{}; {}; heard (left channel) {:?}", detail, b, heard.iter().map(|f| f.left).collect::<Vec<_>>()),
+						);
+					}
+					if fired {
+						ctx.nontrivial_extra += 1;
+						ctx.outcome(hash64(&(n, pre, drained, parked_cbs, nth, frames_hash(&heard))));
+					}
+					handle.stop(Tween { duration: std::time::Duration::ZERO, ..Default::default() });
+					for _ in 0..2 {
+						sound.on_start_processing();
+						sound.process(&mut [Frame::ZERO; 1], dt, &info);
+					}
+					paced_step(dec, 3, &mut hung);
+					if !fired || nth > 40 || hung {
+						break;
+					}
+				}
+			}
+		}
+	}
+}
+
 /// slicing already sliced data with an open-ended region: whatever the static sound makes of it, the stream makes the same
 fn reslice_case(fmt: Fmt, ch: u16, ctx: &mut Ctx) {
 	pacer::set_mode(pacer::Mode::Pacer);
@@ -1251,6 +1389,8 @@ enum Case {
 	LoopSeek(Fmt, u16),
 	/// seek_by while the decoder is a number of frames ahead of what is heard
 	SeekBy(Fmt, u16),
+	/// callbacks inside the decoder's iterations around the last frame of a short file
+	FileEnd(Fmt, u16),
 }
 
 fn cases(tier: Tier) -> Vec<Case> {
@@ -1276,6 +1416,7 @@ fn cases(tier: Tier) -> Vec<Case> {
 	v.push(Case::LoopSeek(Fmt::U8, 1));
 	v.push(Case::SeekBy(Fmt::S16, 1));
 	v.push(Case::SeekBy(Fmt::F32, 2));
+	v.push(Case::FileEnd(Fmt::S16, 2));
 	for (i, s) in bases(tier).into_iter().enumerate() {
 		let b = base(s);
 		v.extend((0..=b.bytes.len() / TRUNC_PART).map(|part| Case::Trunc(i, part)));
@@ -1305,6 +1446,7 @@ impl Check for C18 {
 			Case::SeekBy(f, ch) => format!("generated wav {:?} channels={} of 6000 frames at 8000 Hz: seek_by(d) for d in a lattice, issued after 100 frames were heard while the decoder is 0 / 64 / 1000 / 3000 frames ahead: after the buffered frames the stream continues at heard position + d", f, ch),
 			Case::LoopSeek(f, ch) => format!("generated wav {:?} channels={} of 3000 frames at 8000 Hz streamed with loop region 1500..2200: start x one seek over a lattice of targets (before / inside / at the end of / beyond the region), early (decoder has not reached the loop) and late", f, ch),
 			Case::Sliced(f, ch) => format!("generated wav {:?} channels={} of 4000 frames at 8000 Hz, streamed through StreamingSoundData::slice for 5 slices (start inside the first packet / on the packet border / in a later packet / 0) x 4 start positions x {{no seek, 3 seeks}} == the same frames of the loaded file", f, ch),
+			Case::FileEnd(f, ch) => format!("generated wav {:?} channels={} of 6 and 7 frames at 8000 Hz streamed in callbacks of 2 frames: the decoder delivers 3..n frames, then is parked at each of its sync points in turn (every pass, until none is left) while 1 or 3 callbacks run: the frames heard are the file's, in order, to the last", f, ch),
 			Case::LongStream(f, ch) => format!("generated wav {:?} channels={} of 40000 frames at 8000 Hz streamed from start to end in pieces of 1000 frames (crosses the 16384-frame decoder ring twice) == loaded", f, ch),
 		}
 	}
@@ -1319,6 +1461,7 @@ impl Check for C18 {
 			Case::Sliced(f, ch) => format!("sliced stream {:?} channels={}", f, ch),
 			Case::LoopSeek(f, ch) => format!("looping stream seeks {:?} channels={}", f, ch),
 			Case::SeekBy(f, ch) => format!("seek_by with read-ahead {:?} channels={}", f, ch),
+			Case::FileEnd(f, ch) => format!("end of file {:?} channels={}", f, ch),
 		}
 	}
 	fn run_case(&self, tier: Tier, idx: u64, ctx: &mut Ctx) {
@@ -1335,6 +1478,7 @@ impl Check for C18 {
 			}
 			Case::LoopSeek(f, ch) => loop_seek_case(*f, *ch, ctx),
 			Case::SeekBy(f, ch) => seek_by_case(*f, *ch, ctx),
+			Case::FileEnd(f, ch) => file_end_case(*f, *ch, ctx),
 		});
 		if let Err(p) = r {
 			ctx.fail(format!("panic: {} :: outside the guarded kira calls (harness)", p), self.describe(tier, idx));
